@@ -160,6 +160,16 @@ def eval_mismatches(suite, pairs, shard=250, timeout=600, jobs=16):
         shutil.rmtree(scratch, ignore_errors=True)
 
 
+def prettify(text: str) -> str:
+    """Render Coq's list-of-ascii output as quoted strings."""
+    def chars(m):
+        body = m.group(0)
+        cs = re.findall(r'"((?:[^"]|"")*)"%char', body)
+        return '"' + ''.join(c.replace('""', '"') for c in cs) + '"'
+    text = re.sub(r'\[\s*(?:"(?:[^"]|"")*"%char\s*;?\s*)+\]', chars, text)
+    return re.sub(r'\s+', ' ', text)
+
+
 def eval_model(suite, input_term, timeout=300):
     """Evaluate the model on one input; returns Coq's printed answer (text)."""
     scratch = Path(tempfile.mkdtemp(prefix='tcverif-one-'))
@@ -170,6 +180,6 @@ def eval_model(suite, input_term, timeout=300):
         body += f'Eval vm_compute in ({suite.model} the_input).\n'
         f.write_text(body)
         rc, out = _run_coqc(f, timeout)
-        return out.strip()
+        return prettify(out.strip())
     finally:
         shutil.rmtree(scratch, ignore_errors=True)
